@@ -11,7 +11,12 @@ func vcModMap(m interface{})            {}
 func vcMod(p interface{})               {}
 func vcModElems(n int, p interface{})   {}
 func vcCalls(callee string) int         { return 0 }
+func vcFailed(callee string) int        { return 0 }
 func vcFresh(x interface{}) bool        { return true }
 
 // vcSameObject(a, b): the interface values a and b hold (a pointer to) the same object.
 func vcSameObject(a, b interface{}) bool { return true }
+
+// vcAsEvent: the event held in an interface value (the zero event if it holds something else).
+func vcAsEvent(x interface{}) event { v, _ := x.(event); return v }
+func vcIsEvent(x interface{}) bool  { _, ok := x.(event); return ok }
